@@ -61,6 +61,7 @@ while the word **local** refers to within the current coordinate system defined 
 current grid.
 """
 # ruff: noqa: F401
+import re
 from typing import Optional, Tuple
 
 from armi.reactor.grids.axial import AxialGrid
@@ -90,7 +91,8 @@ def locatorLabelToIndices(label: str) -> Tuple[int, int, Optional[int]]:
 
     If there are only i,j  indices, make the last item None
     """
-    intVals = tuple(int(idx) for idx in label.split("-"))
+    # a hyphen separates two indices only when it follows a digit; otherwise it is the sign of a negative index
+    intVals = tuple(int(idx) for idx in re.split(r"(?<=\d)-", label))
     if len(intVals) == 2:
         intVals = (intVals[0], intVals[1], None)
     return intVals
